@@ -2,6 +2,7 @@ import Cx.Proofs.Fast
 import Cx.Proofs.FastCex
 import Cx.Proofs.CompositeDfa
 import Cx.Proofs.CompositeDfaCex
+import Cx.Proofs.CompositeSim
 /-
   C19 — specialised fast paths are exact on every pattern they accept.
 
@@ -53,6 +54,15 @@ import Cx.Proofs.CompositeDfaCex
     Hypotheses: `repOK`, `sorted` as for the CompositeSearcher (parser invariants).  `IsCompositeSequenceDFAPattern`
     alone would NOT do (it inspects the extracted parts only: non-greedy parts and Latin-1 members pass) —
     `compositeSequenceDFA_predicate_alone_insufficient`; meta never builds the DFA for such patterns.
+  * CompositeSearcher after its rewrite (nfa/composite.go: configuration tables, greedy attempt, ordered-list simulation
+    of all match attempts; model Cx.Model.CompositeSim): `C19_compositeSearcher_simulation` — the NEW code's model equals
+    the reference matcher for `SearchAt` (every offset) and `IsMatch`, and equals the old backtracking model
+    (`C19_compositeSearcher`, now a specification) on every haystack and offset WITHOUT any side hypothesis
+    (`CompSim.compSim_searchAt_eq`).  Proof: the tables are a priority automaton whose closure lists are tail-determined
+    (what follows an id in a closure list depends on the id only), which makes first-occurrence dedup exact; the
+    ordered thread list has the value of its first thread with a complete walk; a new attempt appended last = leftmost
+    start; the value of a new attempt is the old `matchAt`; `matchGreedy` success is the first alternative of the
+    backtracking.  No `_partial`.
   The witnesses of the fixed defects are kept in `Cx.Proofs.FastCex` as `…_fixed` theorems (pattern now rejected, or
   matcher now agrees with the reference).
   `Ref.refFind` is the general leftmost-first reference matcher over the AST (`Cx.Spec.ReRef`), validated against regexp.
@@ -77,6 +87,20 @@ theorem C19_compositeSearcher (re : Re) (c : CompositeSearcher) (hok : isComposi
     (hc : newCompositeSearcher re = some c) (repOK : RepeatOK re) (sorted : ClassSorted re)
     (h : Bytes) (a : Nat) : c.searchAt h a = Ref.refFind re h a :=
   compositeSearcher_eq_reference re c hok hc repOK sorted h a
+
+/-- the REWRITTEN CompositeSearcher (tables + greedy attempt + ordered-list simulation, Cx.Model.CompositeSim): on EVERY
+    pattern `IsCompositeCharClassPattern` accepts, `SearchAt` (any offset) and `IsMatch` of the searcher
+    `NewCompositeSearcher` builds are exact w.r.t. the reference matcher; and — for ANY pattern the constructor accepts,
+    with no hypothesis — the new code computes what the old backtracking model computes.  `repOK`, `sorted`: parser
+    invariants, as in `C19_compositeSearcher`. -/
+theorem C19_compositeSearcher_simulation (re : Re) (s : CompSim.CompositeSim) (hs : CompSim.newCompositeSim re = some s) :
+    (isCompositeCharClassPattern re = true → RepeatOK re → ClassSorted re →
+      (∀ h a, s.searchAt h a = Ref.refFind re h a) ∧ (∀ h, s.isMatch h = (Ref.refFind re h 0).isSome)) ∧
+    (∀ c, newCompositeSearcher re = some c → (∀ h a, s.searchAt h a = c.searchAt h a) ∧ (∀ h, s.isMatch h = c.isMatch h)) :=
+  ⟨fun hok repOK sorted =>
+    ⟨fun h a => CompSim.compSim_eq_reference re s hok hs repOK sorted h a,
+     fun h => CompSim.compSim_isMatch_eq_reference re s hok hs repOK sorted h⟩,
+   fun c hc => ⟨fun h a => CompSim.compSim_searchAt_eq re s c hs hc h a, fun h => CompSim.compSim_isMatch_eq re s c hs hc h⟩⟩
 
 /-- CompositeSequenceDFA (`c1{m1,} c2{m2,} …` as tables): on EVERY pattern `IsCompositeCharClassPattern` accepts and
     `NewCompositeSequenceDFA` builds a DFA for (the constructor succeeding implies `IsCompositeSequenceDFAPattern`),
@@ -118,12 +142,11 @@ theorem C19_compositeSearcher_fragment (re : Re) (hok : isCompositeCharClassPatt
    isCompositeCharClassPattern_noZeroMax re hok, isCompositeCharClassPattern_ascii re hok⟩
 
 /-- anchored-literal matcher (`^prefix.*[cls]+suffix$`): on EVERY detected pattern and EVERY haystack it equals its
-    byte-level specification, `.` excluding `\\n` unless the wildcard is `(?s:.)`; the fragment (`AnchoredFrag`) says
-    that all literals are case-sensitive (bytes = UTF-8 of the runes) and that the class bridge passes the ASCII test.
-    Still `_partial`: no hypothesis is left, but the specification reads both anchors as TEXT anchors (`\\A`, `\\z`) while
-    `DetectAnchoredLiteral` also accepts the line anchors `(?m)^` / `(?m)$` (`anchoredLiteral_multiline_counterexample`;
-    meta only selects the strategy for patterns anchored at both ends of the text). -/
-theorem C19_anchoredLiteral_partial (re : Re) (info : AnchoredLiteralInfo) (hd : detectAnchoredLiteral re = some info)
+    byte-level specification `\\A prefix .{w,} cls{c,} suffix \\z`, `.` excluding `\\n` unless the wildcard is `(?s:.)`;
+    the fragment (`AnchoredFrag`) says that both anchors are TEXT anchors (since the fix commit the line anchors `(?m)^` /
+    `(?m)$` no longer qualify: `anchoredLiteral_multiline_fixed`), that all literals are case-sensitive (bytes = UTF-8 of
+    the runes) and that the class bridge passes the ASCII test.  No hypothesis is left. -/
+theorem C19_anchoredLiteral (re : Re) (info : AnchoredLiteralInfo) (hd : detectAnchoredLiteral re = some info)
     (h : Bytes) :
     AnchoredFrag re info ∧
     (matchAnchoredLiteral h info = true ↔ AnchoredSpec (wildcardDotNL re) info h) ∧
